@@ -77,7 +77,20 @@ package phase3
 //@   requires[|C01] p != nil && n != nil
 //@   ensures[|C01] has(p.positions, n) && p.positions[n] == pos && n.LayerPos == pos
 
-// breakEdge puts the helper node into the band below the edge's source: that band has to exist
+// breakEdge splits e at a new helper node in the band below its source (C02, C03): e keeps its source and now ends
+// at the helper; a new edge f runs from the helper to e's old target with e's reversed flag; the helper is virtual,
+// sits in band From.Layer+1, has exactly e as in-edge and f as out-edge; f takes e's place in the old target's in-list;
+// f, the helper and nothing else are appended to the graph's lists and to the band. Other edges keep their ends.
 //@ func breakEdge
-//@   requires[|C01] g != nil && e != nil && e.From != nil && e.To != nil
-//@   requires[|C01] 0 <= e.From.Layer + 1 && e.From.Layer + 1 < len(g.Layers) && g.Layers[e.From.Layer + 1] != nil
+//@   requires g != nil && e != nil && e.From != nil && e.To != nil
+//@   requires 0 <= e.From.Layer + 1 && e.From.Layer + 1 < len(g.Layers) && g.Layers[e.From.Layer + 1] != nil
+//@   requires[sep|C02,C03] allocatedArr(g.Edges) && arr(e.To.In) != arr(g.Edges) && allocatedArr(g.Nodes) && arr(g.Layers[e.From.Layer + 1].Nodes) != arr(g.Nodes)
+//@   ensures[halves|C02,C03] result0 == e && e.From == old(e.From) && e.To != nil && !old(allocated(now(e.To))) && result1 != nil && !old(allocated(result1))
+//@       && result1.From == e.To && result1.To == old(e.To) && result1.IsReversed == e.IsReversed && e.IsReversed == old(e.IsReversed)
+//@   ensures[helper|C02,C03] e.To.IsVirtual && e.To.Layer == old(e.From.Layer) + 1 && len(e.To.In) == 1 && e.To.In[0] == e && len(e.To.Out) == 1 && e.To.Out[0] == result1
+//@   ensures[lists|C02] len(g.Edges) == old(len(g.Edges)) + 1 && g.Edges[len(g.Edges)-1] == result1 && len(g.Nodes) == old(len(g.Nodes)) + 1 && g.Nodes[len(g.Nodes)-1] == e.To
+//@       && (forall i int :: 0 <= i && i < old(len(g.Edges)) ==> g.Edges[i] == old(g.Edges[i])) && (forall i int :: 0 <= i && i < old(len(g.Nodes)) ==> g.Nodes[i] == old(g.Nodes[i]))
+//@   ensures[band|C02,C03] len(g.Layers[e.To.Layer].Nodes) == old(len(g.Layers[e.From.Layer + 1].Nodes)) + 1 && g.Layers[e.To.Layer].Nodes[len(g.Layers[e.To.Layer].Nodes)-1] == e.To
+//@   loop range(to.In)#1 index a
+//@     invariant forall t []*Edge, j int :: arr(t) != arr(to.In) ==> t[j] == loopold(t[j])
+//@   ensures[others|C02,C03] forall x *Edge :: x != e && old(allocated(x)) ==> x.From == old(x.From) && x.To == old(x.To) && x.IsReversed == old(x.IsReversed)
